@@ -1,6 +1,6 @@
 SPECIFICATION Spec
 CONSTANTS
-  Deviations <- AllDevs
+  Deviations <- RealDevs
   MaxNodes = 3
   Worlds <- VecWorld
   Rich = FALSE
